@@ -220,41 +220,16 @@ func evaluateExpression(node []*Node, expression string, query parser.Query) (in
 	return output, nil
 }
 
-func generateCartesianProduct(graph *CodeGraph, selectList []parser.SelectList, conditions []string) [][]*Node {
+func generateCartesianProduct(graph *CodeGraph, selectList []parser.SelectList, _ []string) [][]*Node {
 	typeIndex := make(map[string][]*Node)
 
-	// value and reference based reducing search space
-	for _, condition := range conditions {
-		// this code helps to reduce search space
-		// if there is single entity in select list, the condition is easy to reduce the search space
-		// if there are multiple entities in select list, the condition is hard to reduce the search space,
-		// but I have tried my best using O(n^2) time complexity to reduce the search space
-		if len(selectList) > 1 {
-			lhsNodes := graph.FindNodesByType(selectList[0].Entity)
-			rhsNodes := graph.FindNodesByType(selectList[1].Entity)
-			for _, lhsNode := range lhsNodes {
-				for _, rhsNode := range rhsNodes {
-					if FilterEntities([]*Node{lhsNode, rhsNode}, parser.Query{Expression: condition, SelectList: selectList}) {
-						typeIndex[lhsNode.Type] = appendUnique(typeIndex[lhsNode.Type], lhsNode)
-						typeIndex[rhsNode.Type] = appendUnique(typeIndex[rhsNode.Type], rhsNode)
-					}
-				}
-			}
-		} else {
-			filteredNodes := graph.FindNodesByType(selectList[0].Entity)
-			for _, node := range filteredNodes {
-				query := parser.Query{Expression: condition, SelectList: selectList}
-				if FilterEntities([]*Node{node}, query) {
-					typeIndex[node.Type] = appendUnique(typeIndex[node.Type], node)
-				}
-			}
-		}
-	}
-
-	if len(conditions) == 0 {
-		for _, node := range graph.Nodes {
-			typeIndex[node.Type] = append(typeIndex[node.Type], node)
-		}
+	// Every node of a requested kind is a candidate; QueryEntities applies the complete
+	// condition to each combination. (Narrowing the candidates by the individual comparisons
+	// of the condition is unsound: under a negation or in a disjunction with a predicate call
+	// an entity can match although it satisfies none of them, and it indexed only the first
+	// two FROM items.)
+	for _, node := range graph.Nodes {
+		typeIndex[node.Type] = append(typeIndex[node.Type], node)
 	}
 
 	sets := make([][]interface{}, 0, len(selectList))
